@@ -246,15 +246,288 @@ def _r2(ctx, pkg):
     ctx.check(len(al) == 1 and re_add and al[0].seq < re_add[0].seq, "R2", "allowed_species.setter:order", (NF, st.lineno), "the new allowed list is installed before the reactions are re-examined")
 
 
-def _declared(ci):
-    names = {"options": set(), "arguments": set()}
+class _Strings:
+    """Which strings an expression of a command class can denote -- by following the value, not by its spelling: literals, f-strings /
+    `+` / %-formatting / str.format / str.join over such, locals and module / class-level constants bound once, the variables of
+    `for` loops and comprehensions over literal tables (also zip / enumerate / dict items of such, module- or class-level ones),
+    and a parameter of a helper method (the values its call sites in the class pass).  Everything is finite and syntactic; what
+    is not understood is None (the caller answers UNRECOGNISED)."""
+
+    def __init__(self, pkg, ci):
+        self.pkg, self.ci = pkg, ci
+        self.mod = pkg.modules[ci.file]
+        self._parents = {}
+        self._once = {}
+
+    # ---- scopes
+    def parents(self, fn):
+        if id(fn) not in self._parents:
+            m = {}
+            for n in ast.walk(fn):
+                for ch in ast.iter_child_nodes(n):
+                    m[id(ch)] = n
+            self._parents[id(fn)] = m
+        return self._parents[id(fn)]
+
+    def once(self, scope, name):
+        """the value a name is bound to by its ONLY binding in a scope (function / module body), a plain assignment; else None"""
+        key = (id(scope), name)
+        if key not in self._once:
+            stores = [n for n in ast.walk(scope) if isinstance(n, ast.Name) and n.id == name and isinstance(n.ctx, (ast.Store, ast.Del))]
+            args = isinstance(scope, ast.FunctionDef) and any(a.arg == name for a in ast.walk(scope.args) if isinstance(a, ast.arg))
+            vals = [st.value for st in ast.walk(scope) if isinstance(st, (ast.Assign, ast.AnnAssign)) and st.value is not None
+                    for t in (st.targets if isinstance(st, ast.Assign) else [st.target]) if isinstance(t, ast.Name) and t.id == name]
+            self._once[key] = vals[0] if len(stores) == 1 and len(vals) == 1 and not args else None
+        return self._once[key]
+
+    def deref(self, e, fn):
+        """the expression a name / class attribute stands for (one step), or None"""
+        if isinstance(e, ast.Name):
+            v = self.once(fn, e.id) if fn is not None else None
+            if v is None and (fn is None or not any(isinstance(n, ast.Name) and n.id == e.id and isinstance(n.ctx, ast.Store) for n in ast.walk(fn))):
+                v = self.once(self.mod, e.id)
+            return v
+        if isinstance(e, ast.Attribute) and isinstance(e.value, ast.Name) and e.value.id in ("self", "cls", self.ci.name):
+            return self.pkg.resolve_attr(self.ci.name, e.attr)[1]
+        return None
+
+    # ---- sequences
+    def seq(self, e, fn, depth=0):
+        """the element expressions of a literal table, or None"""
+        if depth > 6 or e is None:
+            return None
+        if isinstance(e, (ast.List, ast.Tuple, ast.Set)):
+            return None if any(isinstance(x, ast.Starred) for x in e.elts) else list(e.elts)
+        if isinstance(e, ast.Dict):
+            return None if any(k is None for k in e.keys) else list(e.keys)
+        if isinstance(e, (ast.Name, ast.Attribute)):
+            return self.seq(self.deref(e, fn), fn, depth + 1)
+        if isinstance(e, ast.BinOp) and isinstance(e.op, ast.Add):
+            a, b = self.seq(e.left, fn, depth + 1), self.seq(e.right, fn, depth + 1)
+            return None if a is None or b is None else a + b
+        if isinstance(e, ast.Call) and not e.keywords:
+            f = e.func
+            if isinstance(f, ast.Name) and f.id in ("list", "tuple", "sorted", "tqdm", "iter") and len(e.args) == 1:
+                return self.seq(e.args[0], fn, depth + 1)
+            if isinstance(f, ast.Name) and f.id == "reversed" and len(e.args) == 1:
+                a = self.seq(e.args[0], fn, depth + 1)
+                return None if a is None else a[::-1]
+            if isinstance(f, ast.Name) and f.id == "zip" and e.args:
+                cols = [self.seq(a, fn, depth + 1) for a in e.args]
+                if any(c is None for c in cols):
+                    return None
+                return [ast.Tuple(elts=list(r), ctx=ast.Load()) for r in zip(*cols)]
+            if isinstance(f, ast.Name) and f.id == "enumerate" and len(e.args) == 1:
+                a = self.seq(e.args[0], fn, depth + 1)
+                return None if a is None else [ast.Tuple(elts=[ast.Constant(value=i), x], ctx=ast.Load()) for i, x in enumerate(a)]
+            if isinstance(f, ast.Attribute) and f.attr in ("items", "keys", "values") and not e.args:
+                d = f.value
+                for _ in range(4):
+                    if isinstance(d, ast.Dict) or d is None:
+                        break
+                    d = self.deref(d, fn)
+                if isinstance(d, ast.Dict) and not any(k is None for k in d.keys):
+                    if f.attr == "keys":
+                        return list(d.keys)
+                    if f.attr == "values":
+                        return list(d.values)
+                    return [ast.Tuple(elts=[k, v], ctx=ast.Load()) for k, v in zip(d.keys, d.values)]
+        return None
+
+    @staticmethod
+    def _bind(target, elt, row):
+        if isinstance(target, ast.Name):
+            row[target.id] = elt
+            return True
+        if isinstance(target, (ast.Tuple, ast.List)) and isinstance(elt, (ast.Tuple, ast.List)) and len(target.elts) == len(elt.elts) \
+                and not any(isinstance(x, ast.Starred) for x in list(target.elts) + list(elt.elts)):
+            return all(_Strings._bind(t, x, row) for t, x in zip(target.elts, elt.elts))
+        return False
+
+    def rows(self, node, fn):
+        """the bindings of the loop / comprehension variables over literal tables in force at `node`: [{name: element expr}]"""
+        par = self.parents(fn)
+        binders = []
+        ch, p_ = node, par.get(id(node))
+        while p_ is not None:
+            if isinstance(p_, ast.For) and any(ch is x for x in p_.body):
+                binders.append((p_.target, p_.iter))
+            elif isinstance(p_, (ast.ListComp, ast.SetComp, ast.GeneratorExp, ast.DictComp)) and not any(ch is g for g in p_.generators):
+                for g in reversed(p_.generators):
+                    binders.append((g.target, g.iter))
+            elif isinstance(p_, ast.comprehension):
+                # inside a generator's own iterable / filter: the earlier generators of the comprehension bind
+                comp = par.get(id(p_))
+                if comp is not None:
+                    i = next(i for i, g in enumerate(comp.generators) if g is p_)
+                    upto = i + (0 if ch is p_.iter else 1)
+                    for g in reversed(comp.generators[:upto]):
+                        binders.append((g.target, g.iter))
+                    ch, p_ = comp, par.get(id(comp))
+                    continue
+            ch, p_ = p_, par.get(id(p_))
+        out = [{}]
+        for tg, it in reversed(binders):
+            elts = self.seq(it, fn)
+            if elts is None:
+                continue                # the names it binds stay unknown
+            new = []
+            for r in out:
+                for x in elts:
+                    r2 = dict(r)
+                    if self._bind(tg, x, r2):
+                        new.append(r2)
+            if not new or len(new) > 400:
+                continue
+            out = new
+        return out
+
+    # ---- strings
+    def text(self, e, row, fn, depth=0):
+        """the string an expression denotes under a binding of loop variables, or None"""
+        if depth > 8 or e is None:
+            return None
+        if isinstance(e, ast.Constant):
+            return e.value if isinstance(e.value, str) else None
+        if isinstance(e, ast.JoinedStr):
+            parts = []
+            for v in e.values:
+                if isinstance(v, ast.FormattedValue):
+                    if v.format_spec is not None or v.conversion not in (-1, 115):
+                        return None
+                    v = v.value
+                parts.append(self.text(v, row, fn, depth + 1))
+            return None if any(x is None for x in parts) else "".join(parts)
+        if isinstance(e, ast.Name) and e.id in row:
+            return self.text(row[e.id], {k: v for k, v in row.items() if k != e.id}, fn, depth + 1)
+        if isinstance(e, (ast.Name, ast.Attribute)):
+            return self.text(self.deref(e, fn), row, fn, depth + 1)
+        if isinstance(e, ast.BinOp) and isinstance(e.op, ast.Add):
+            a, b = self.text(e.left, row, fn, depth + 1), self.text(e.right, row, fn, depth + 1)
+            return None if a is None or b is None else a + b
+        if isinstance(e, ast.BinOp) and isinstance(e.op, ast.Mod):
+            fmt = self.text(e.left, row, fn, depth + 1)
+            args = e.right.elts if isinstance(e.right, ast.Tuple) else [e.right]
+            vals = [self.text(a, row, fn, depth + 1) for a in args]
+            if fmt is None or any(v is None for v in vals) or fmt.count("%s") != len(vals) or fmt.count("%") != len(vals):
+                return None
+            return fmt % tuple(vals)
+        if isinstance(e, ast.Subscript) and isinstance(e.slice, ast.Constant) and isinstance(e.slice.value, int):
+            base = e.value
+            if isinstance(base, ast.Name) and base.id in row:
+                base = row[base.id]
+            elts = self.seq(base, fn)
+            if elts is not None and -len(elts) <= e.slice.value < len(elts):
+                return self.text(elts[e.slice.value], row, fn, depth + 1)
+            return None
+        if isinstance(e, ast.Call) and isinstance(e.func, ast.Attribute) and not e.keywords:
+            recv = self.text(e.func.value, row, fn, depth + 1)
+            if recv is not None and e.func.attr == "format":
+                vals = [self.text(a, row, fn, depth + 1) for a in e.args]
+                if any(v is None for v in vals):
+                    return None
+                try:
+                    return recv.format(*vals)
+                except Exception:
+                    return None
+            if recv is not None and e.func.attr == "join" and len(e.args) == 1:
+                elts = self.seq(e.args[0], fn)
+                vals = [self.text(a, row, fn, depth + 1) for a in elts] if elts is not None else None
+                return None if vals is None or any(v is None for v in vals) else recv.join(vals)
+        if isinstance(e, ast.Call) and isinstance(e.func, ast.Name) and e.func.id == "str" and len(e.args) == 1 and not e.keywords:
+            return self.text(e.args[0], row, fn, depth + 1)
+        return None
+
+    def values(self, e, fn, depth=0):
+        """every string the expression `e` (a node inside method `fn`) can denote, or None when some case is not understood"""
+        rows = self.rows(e, fn)
+        # a parameter of the method: the values the call sites `self.<method>(..)` in the class pass for it
+        params = [a.arg for a in fn.args.args[1:]] + [a.arg for a in fn.args.kwonlyargs]
+        used = [p_ for p_ in params if any(isinstance(n, ast.Name) and n.id == p_ for n in ast.walk(e))
+                and not any(isinstance(n, ast.Name) and n.id == p_ and isinstance(n.ctx, ast.Store) for n in ast.walk(fn))]
+        if used:
+            if depth > 2:
+                return None
+            sites = [(g, c) for g in self.ci.methods.values() for c in ast.walk(g)
+                     if isinstance(c, ast.Call) and isinstance(c.func, ast.Attribute) and c.func.attr == fn.name and isinstance(c.func.value, ast.Name) and c.func.value.id in ("self", "cls")]
+            if not sites:
+                return None
+            per_site = []
+            for g, c in sites:
+                if any(isinstance(a, ast.Starred) for a in c.args) or any(k.arg is None for k in c.keywords):
+                    return None
+                given = dict(zip([a.arg for a in fn.args.args[1:]], c.args))
+                given.update({k.arg: k.value for k in c.keywords})
+                defaults = dict(zip([a.arg for a in fn.args.args][len(fn.args.args) - len(fn.args.defaults):], fn.args.defaults))
+                combos = [{}]
+                for p_ in used:
+                    a = given.get(p_, defaults.get(p_))
+                    vals = self.values(a, g, depth + 1) if p_ in given else ([self.text(a, {}, None)] if a is not None else None)
+                    if not vals or any(v is None for v in vals):
+                        return None
+                    combos = [dict(cb, **{p_: ast.Constant(value=v)}) for cb in combos for v in vals]
+                per_site += combos
+            rows = [dict(r, **cb) for r in rows for cb in per_site]
+        out = []
+        for r in rows:
+            t = self.text(e, r, fn)
+            if t is None:
+                return None
+            if t not in out:
+                out.append(t)
+        return out
+
+
+def _declared(pkg, ci):
+    """names a command declares: {"options": set | None, "arguments": set | None} -- None when the declaration list is built in a way
+    that is not understood (then nothing is said about reads of that kind)"""
+    S = _Strings(pkg, ci)
+    names = {}
     for attr, helper in (("options", "option"), ("arguments", "argument")):
-        node = ci.attrs.get(attr)
+        node = pkg.resolve_attr(ci.name, attr)[1]
         if node is None:
+            names[attr] = set()
             continue
-        for c in ast.walk(node):
-            if isinstance(c, ast.Call) and ast.unparse(c.func) == helper and c.args and isinstance(c.args[0], ast.Constant):
-                names[attr].add(c.args[0].value)
+        out = set()
+
+        def collect(e, depth=0):
+            """False when an entry of the list is not understood"""
+            if depth > 6 or e is None:
+                return False
+            if isinstance(e, (ast.List, ast.Tuple)):
+                return all(collect(x.value if isinstance(x, ast.Starred) else x, depth + 1) if isinstance(x, ast.Starred) else entry(x, {}) for x in e.elts)
+            if isinstance(e, ast.BinOp) and isinstance(e.op, ast.Add):
+                return collect(e.left, depth + 1) and collect(e.right, depth + 1)
+            if isinstance(e, (ast.Name, ast.Attribute)):
+                return collect(S.deref(e, None), depth + 1)
+            if isinstance(e, ast.Call) and isinstance(e.func, ast.Name) and e.func.id in ("list", "tuple") and len(e.args) == 1 and not e.keywords:
+                return collect(e.args[0], depth + 1)
+            if isinstance(e, (ast.ListComp, ast.GeneratorExp)) and all(not g.ifs for g in e.generators):
+                rows = [{}]
+                for g in e.generators:
+                    elts = S.seq(g.iter, None)
+                    if elts is None:
+                        return False
+                    new = []
+                    for r in rows:
+                        for x in elts:
+                            r2 = dict(r)
+                            if not S._bind(g.target, x, r2):
+                                return False
+                            new.append(r2)
+                    rows = new
+                return all(entry(e.elt, r) for r in rows)
+            return False
+
+        def entry(x, row):
+            if isinstance(x, ast.Call) and ast.unparse(x.func) == helper:
+                a = x.args[0] if x.args else next((k.value for k in x.keywords if k.arg in ("name", "long_name")), None)
+                t = S.text(a, row, None) if a is not None else None
+                if t is not None:
+                    out.add(t)
+                    return True
+            return False
+        names[attr] = out if collect(node) else None
     return names
 
 
@@ -266,47 +539,23 @@ def _r3(ctx, pkg):
             continue
         ci = pkg.cls(cname)
         ctx.saw(ci.file, f"{cname}.handle")
-        decl = _declared(ci)
+        decl = _declared(pkg, ci)
+        S = _Strings(pkg, ci)
+        for kind in ("options", "arguments"):
+            if decl[kind] is None:
+                ctx.unrec("R3", f"{cname}:{kind} declared", (ci.file, ci.node.lineno), f"the list `{kind}` of {cname} is built in a way that is not understood")
         for mname, fn in ci.methods.items():
-            # f-strings with a finite expansion: for x in [literals]: self.option(f"..{x}..")
-            consts = {}
-            for node in ast.walk(fn):
-                if isinstance(node, ast.Assign) and isinstance(node.targets[0], ast.Name) and isinstance(node.value, (ast.List, ast.Tuple)) \
-                        and all(isinstance(e, ast.Constant) and isinstance(e.value, str) for e in node.value.elts):
-                    consts[node.targets[0].id] = [e.value for e in node.value.elts]
-            loopvals = {}
-            for node in ast.walk(fn):
-                if isinstance(node, ast.For):
-                    it = node.iter
-                    tg = node.target
-                    if isinstance(it, ast.Call) and ast.unparse(it.func) == "zip" and isinstance(tg, ast.Tuple):
-                        for t, a in zip(tg.elts, it.args):
-                            if isinstance(t, ast.Name) and isinstance(a, ast.Name) and a.id in consts:
-                                loopvals[t.id] = consts[a.id]
-                    elif isinstance(tg, ast.Name) and isinstance(it, ast.Name) and it.id in consts:
-                        loopvals[tg.id] = consts[it.id]
-                    elif isinstance(tg, ast.Name) and isinstance(it, (ast.List, ast.Tuple)) and all(isinstance(e, ast.Constant) for e in it.elts):
-                        loopvals[tg.id] = [e.value for e in it.elts]
             for c in ast.walk(fn):
                 if isinstance(c, ast.Call) and isinstance(c.func, ast.Attribute) and isinstance(c.func.value, ast.Name) and c.func.value.id == "self" \
-                        and c.func.attr in ("option", "argument") and c.args:
+                        and c.func.attr in ("option", "argument") and (c.args or c.keywords):
                     kind = "options" if c.func.attr == "option" else "arguments"
-                    a = c.args[0]
-                    names = None
-                    if isinstance(a, ast.Constant) and isinstance(a.value, str):
-                        names = [a.value]
-                    elif isinstance(a, ast.JoinedStr):
-                        names = [""]
-                        for part in a.values:
-                            if isinstance(part, ast.Constant):
-                                names = [x + part.value for x in names]
-                            elif isinstance(part, ast.FormattedValue) and isinstance(part.value, ast.Name) and part.value.id in loopvals:
-                                names = [x + v for x in names for v in loopvals[part.value.id]]
-                            else:
-                                names = None
-                                break
+                    a = c.args[0] if c.args else c.keywords[0].value
+                    names = S.values(a, fn)
                     if names is None:
-                        ctx.unrec("R3", f"{cname}.{mname}:{ast.unparse(a)[:40]}", (ci.file, c.lineno), "option name is not a literal or a finitely expandable f-string")
+                        ctx.unrec("R3", f"{cname}.{mname}:{ast.unparse(a)[:40]}", (ci.file, c.lineno), "option name is not a literal or a finitely expandable expression")
+                        continue
+                    if decl[kind] is None:
+                        n += len(names)
                         continue
                     for nm in names:
                         n += 1
@@ -679,4 +928,36 @@ BENIGN += [
     {"name": "add-reaction-pipeline-of-private-methods", "edits": _add_pipeline()},
     {"name": "desorption-options-class-table", "edits": _desorb_table()},
     {"name": "duplicate-scan-in-static-helper", "edits": _scan_helper()},
+]
+_POOL_OLD = "        speclist = sorted(\n            self._reactants | self._products | set(self._required_species)\n        )\n\n        connection = {sp: set() for sp in speclist}\n"
+BENIGN += [
+    {"name": "species-pool-by-set-method", "file": NF, "old": _POOL_OLD,
+     "new": "        speclist = sorted(set().union(self._reactants, self._products, self._required_species))\n\n        connection = {sp: set() for sp in speclist}\n"},
+    {"name": "species-pool-by-chain", "file": NF, "old": _POOL_OLD,
+     "new": "        speclist = sorted(set(itertools.chain(self._reactants, self._products, self._required_species)))\n\n        connection = {sp: set() for sp in speclist}\n"},
+]
+MUTANTS += [
+    {"name": "species-pool-without-products", "file": NF, "old": _POOL_OLD,
+     "new": "        speclist = sorted(set().union(self._reactants, self._required_species))\n\n        connection = {sp: set() for sp in speclist}\n", "rules": ["R4"]},
+]
+NEWC = "naunet/console/commands/new.py"
+_NEW_DECL = ('    options = [\n        option("name", None, "Project name."),\n        option("description", None, "Project description."),\n    ]\n')
+
+
+def _new_by_tables(declared='("description", "Project description.")', read='"description"', helper_arg='"name"'):
+    """NewCommand with the option list built from a class-level table by a comprehension, one option read through a helper method that
+    takes the name as parameter, the other through a dict comprehension over a literal tuple"""
+    return [
+        {"file": NEWC, "old": _NEW_DECL, "new": '    _SPECS = (("name", "Project name."), ' + declared + ')\n    options = [option(label, None, text) for label, text in _SPECS]\n'},
+        {"file": NEWC, "old": "    def handle(self):\n", "new": "    def _given(self, label):\n        return self.option(label)\n\n    def handle(self):\n"},
+        {"file": NEWC, "old": '        name = self.option("name") or path.name\n', "new": "        name = self._given(" + helper_arg + ") or path.name\n"},
+        {"file": NEWC, "old": '        description = self.option("description") or ""\n',
+         "new": "        texts = {label: self.option(label) for label in (" + read + ",)}\n        description = texts[" + read + '] or ""\n'}]
+
+
+BENIGN += [{"name": "options-declared-and-read-through-tables-and-helper", "edits": _new_by_tables()}]
+MUTANTS += [
+    {"name": "helper-call-site-passes-undeclared-name", "edits": _new_by_tables(helper_arg='"title"'), "rules": ["R3"]},
+    {"name": "table-declares-another-name", "edits": _new_by_tables(declared='("summary", "Project description.")'), "rules": ["R3"]},
+    {"name": "comprehension-reads-undeclared-name", "edits": _new_by_tables(read='"descr"'), "rules": ["R3"]},
 ]
